@@ -15,5 +15,5 @@ def trc(ctx):
     lints.trc_lint(ctx, ["genjax.inference.mcmc.mh", "genjax.inference.mcmc.mala", "genjax.inference.mcmc.hmc", "genjax.inference.mcmc._create_log_density_wrt_selected"])
 
 
-RULES = [trc, infer.mh_rule, infer.mala_rule, infer.hmc_rule, infer.log_density_closure, infer.mala_noise_shape, infer.hmc_momentum_shape, cond_part]
+RULES = [trc, infer.mh_rule, infer.mala_rule, infer.hmc_rule, infer.log_density_closure, infer.mala_noise_shape, infer.hmc_momentum_shape, infer.scalar_reduction_rule, cond_part]
 FLOOR = 7
